@@ -272,6 +272,8 @@ func alphabet() []op {
 				out = append(out, op{Kind: "Write", Path: p, Shape: s, Src: src})
 			}
 		}
+		// a shape that differs from [3] only by a trailing dimension of length 1 (still a different shape)
+		out = append(out, op{Kind: "Create", Path: p, Shape: []int{3, 1}}, op{Kind: "Write", Path: p, Shape: []int{3, 1}, Src: "contiguous"})
 		// sub-blocks
 		out = append(out, op{Kind: "WriteSlice", Path: p, Shape: []int{2}, Src: "stepped", Loc: []int{1}})
 		out = append(out, op{Kind: "WriteSlice", Path: p, Shape: []int{1, 2}, Src: "column", Loc: []int{1, 1}})
